@@ -795,10 +795,10 @@ impl Arena {
     let mut allocated = header.allocated.load(Ordering::Acquire);
 
     loop {
-      let want = allocated + size;
-      if want > self.cap {
-        break;
-      }
+      let want = match allocated.checked_add(size) {
+        Some(want) if want <= self.cap => want,
+        _ => break,
+      };
 
       match header.allocated.compare_exchange_weak(
         allocated,
@@ -942,12 +942,12 @@ impl Arena {
     let mut allocated = header.allocated.load(Ordering::Acquire);
 
     let want = loop {
-      let aligned_offset = align_offset::<T>(allocated);
       let size = mem::size_of::<T>() as u32;
-      let want = aligned_offset + size + extra;
-      if want > self.cap {
-        break size + extra;
-      }
+      let want = checked_end::<T>(allocated, size as u64 + extra as u64);
+      let want = match want {
+        Some(want) if want <= self.cap => want,
+        _ => break size.saturating_add(extra),
+      };
 
       match header.allocated.compare_exchange_weak(
         allocated,
@@ -981,7 +981,7 @@ impl Arena {
           });
         }
         Freelist::Optimistic => {
-          match self.alloc_slow_path_optimistic(Self::pad::<T>() as u32 + extra) {
+          match self.alloc_slow_path_optimistic((Self::pad::<T>() as u32).saturating_add(extra)) {
             Ok(mut bytes) => {
               bytes.align_bytes_to::<T>();
               return Ok(Some(bytes));
@@ -994,7 +994,7 @@ impl Arena {
           }
         }
         Freelist::Pessimistic => {
-          match self.alloc_slow_path_pessimistic(Self::pad::<T>() as u32 + extra) {
+          match self.alloc_slow_path_pessimistic((Self::pad::<T>() as u32).saturating_add(extra)) {
             Ok(mut bytes) => {
               bytes.align_bytes_to::<T>();
               return Ok(Some(bytes));
@@ -1093,12 +1093,11 @@ impl Arena {
     let header = self.header();
     let mut allocated = header.allocated.load(Ordering::Acquire);
     let want = loop {
-      let align_offset = align_offset::<T>(allocated);
       let size = t_size as u32;
-      let want = align_offset + size;
-      if want > self.cap {
-        break size;
-      }
+      let want = match checked_end::<T>(allocated, size as u64) {
+        Some(want) if want <= self.cap => want,
+        _ => break size,
+      };
 
       match header.allocated.compare_exchange_weak(
         allocated,
